@@ -377,6 +377,13 @@ func sortedKeys(m map[string]string) []string {
 // that goroutine (the bundled websocket.NewClient panics on a failed connect)
 // is returned as text.
 func within(d time.Duration, fn func()) (ok bool, panicked string) {
+	ok, panicked, _ = withinMore(d, fn)
+	return
+}
+
+// withinMore is within that also returns a function to keep waiting for the
+// same goroutine (used to tell "slow" from "never").
+func withinMore(d time.Duration, fn func()) (ok bool, panicked string, more func(time.Duration) (bool, string)) {
 	done := make(chan string, 1)
 	go func() {
 		defer func() {
@@ -388,12 +395,16 @@ func within(d time.Duration, fn func()) (ok bool, panicked string) {
 		}()
 		fn()
 	}()
-	select {
-	case p := <-done:
-		return true, p
-	case <-time.After(d):
-		return false, ""
+	wait := func(d time.Duration) (bool, string) {
+		select {
+		case p := <-done:
+			return true, p
+		case <-time.After(d):
+			return false, ""
+		}
 	}
+	ok, panicked = wait(d)
+	return ok, panicked, wait
 }
 
 // noteBadPackets records (as a note, not a verdict: packet well-formedness is
